@@ -23,6 +23,7 @@ TYPES = [("t", "t"), ("ü.type", "ü.type"), ("nix.x", "nix.x")]
 class Shadow:
     def __init__(self):
         self.attrs = {}
+        self.dimattrs = {}   # (array id, dimension position, field) -> canonical expected read-back
         self.order = {}
         self.alive = {}      # id -> kind
         self.dead = set()
@@ -162,6 +163,11 @@ class Builder:
         self.sh.alive[ent.id] = type(ent).__name__
         self.sh.order.setdefault((parent_id, cname), []).append(ent.id)
         self.sh.attrs[(ent.id, "name")] = ent.name
+        # the object returned by the creating call is itself a long-lived handle (it may carry state a fetched handle lacks)
+        if self._cache_f is self.f:
+            lst = self.handles.setdefault(ent.id, [])
+            if len(lst) < 2:
+                lst.append(ent)
 
     def expect(self, ent, attr, value):
         self.sh.attrs[(ent.id, attr)] = value
@@ -499,7 +505,11 @@ class Builder:
         if numeric:
             def da_calib():
                 if rng.random() < 0.5:
-                    v, e = rng.choice([(None, None), (0, 0), (1.5, ["float", "1.5"]), (2, 2)])
+                    cur = da.expansion_origin
+                    was_int = cur is not None and "int" in type(cur).__name__
+                    pool = [(None, None), (0, 0), (1.5, ["float", "1.5"]), (2, 2), (0.25, ["float", "0.25"]), (3, 3)]
+                    # whole numbers and fractions alternate, so that a value of one kind overwrites a value of the other
+                    v, e = rng.choice([x for x in pool if x[0] is None or (isinstance(x[0], int) != was_int)])
                     da.expansion_origin = v
                     self.expect(da, "expansion_origin", ["float64", e[1]] if isinstance(e, list) else (None if e is None else ["int64", repr(e)]))
                 else:
@@ -549,6 +559,8 @@ class Builder:
 
             def da_deldims():
                 da.delete_dimensions()
+                for k in [k for k in self.sh.dimattrs if k[0] == da.id]:
+                    del self.sh.dimattrs[k]
             add(("da.delete_dimensions", 0.1, da_deldims))
 
             def dimlink():
@@ -574,7 +586,16 @@ class Builder:
                 if d is None:
                     return "skip"
                 if isinstance(d, nix.SampledDimension):
-                    rng.choice([lambda: setattr(d, "offset", rng.choice([None, 2.0])), lambda: setattr(d, "sampling_interval", rng.choice([0.1, 3.0])),
+                    def num(field, pool):
+                        # whole numbers and fractions alternate, so that a value of one kind overwrites a value of the other
+                        cur = getattr(d, field)
+                        was_int = cur is not None and float(cur) == int(cur) and "int" in type(cur).__name__
+                        cand = [v for v in pool if v is None or (isinstance(v, int) != was_int)] or pool
+                        v = rng.choice(cand)
+                        setattr(d, field, v)
+                        exp = None if v is None else (["int64", repr(v)] if isinstance(v, int) else ["float64", repr(v)])
+                        self.sh.dimattrs[(da.id, d.index, field)] = exp
+                    rng.choice([lambda: num("offset", [None, 2, 2.5, 0.25, 3, -1]), lambda: num("sampling_interval", [1, 0.1, 3, 2.5, 0.001]),
                                 lambda: setattr(d, "unit", rng.choice([None, "s"])), lambda: setattr(d, "label", rng.choice([None, "ü"]))])()
                 elif isinstance(d, nix.SetDimension):
                     if d.has_link:
@@ -585,7 +606,10 @@ class Builder:
                         if rng.random() < 0.5:
                             d.remove_link()
                         return
-                    d.ticks = rng.choice([[0.5, 1.5], [3.0], [1.0, 1.0, 2.0]])
+                    # whole-number ticks given as Python ints, later overwritten by fractions (and vice versa)
+                    t = rng.choice([[0.5, 1.5], [3.0], [1.0, 1.0, 2.0], [1, 2], [0, 5, 7], [0.25, 0.75, 1.25]])
+                    d.ticks = t
+                    self.sh.dimattrs[(da.id, d.index, "ticks")] = [float(x) for x in t]
             add(("dim.attr", 0.5, dim_attr))
 
     def _tag_ops(self, b, tg, add):
@@ -824,6 +848,23 @@ class Builder:
                 continue
             if got != exp:
                 out.append(("model:attr:%s.%s" % (key.split(":")[0], attr), {"entity": key, "attr": attr, "expected": exp, "got": got}))
+        for (i, pos, field), exp in self.sh.dimattrs.items():
+            if i not in byid:
+                continue
+            key, rec = byid[i]
+            dims = rec.get("__dims__")
+            if not isinstance(dims, list) or pos - 1 >= len(dims) or not isinstance(dims[pos - 1], dict):
+                continue        # the descriptors were replaced meanwhile (judged by the differential oracle)
+            got = dims[pos - 1].get(field, "__absent__")
+            if field == "ticks":
+                if dims[pos - 1].get("has_link"):
+                    continue        # the ticks were replaced by a link meanwhile
+                try:
+                    got = [float(x[1]) for x in got]      # judged as numbers: whether whole numbers read back as int or float is not fixed
+                except Exception:
+                    pass
+            if got != exp:
+                out.append(("model:dimension_attr:%s" % field, {"entity": key, "dimension": pos, "expected": exp, "got": got}))
         for (pid, cname), lst in self.sh.order.items():
             if pid == "File":
                 rec = table.get("File:", {})
